@@ -7,6 +7,7 @@ package main
 // the rule's table names.
 
 import (
+	"go/token"
 	"go/types"
 
 	"golang.org/x/tools/go/ssa"
@@ -110,11 +111,56 @@ func (p *Prog) guardedIP(in ssa.Instruction, match func(g Guard) bool, depth int
 		if funcPkgPath(cs.Parent()) != funcPkgPath(f) {
 			return false
 		}
+		if callContradicts(cs, in) {
+			continue // this caller passes a constant with which the instruction's branch is not taken
+		}
 		if !p.guardedIP(ci, match, depth+1) {
 			return false
 		}
 	}
 	return true
+}
+
+// callContradicts: the instruction sits in a branch of its function that tests a parameter (if unchoking {…},
+// switch mode { case 2: … }) and this call passes a constant for which that branch is not taken.
+func callContradicts(cs ssa.CallInstruction, in ssa.Instruction) bool {
+	f := in.Parent()
+	args := cs.Common().Args
+	if len(args) != len(f.Params) {
+		return false
+	}
+	argOf := func(v ssa.Value) ssa.Value {
+		for i, pa := range f.Params {
+			if ssa.Value(pa) == v {
+				return args[i]
+			}
+		}
+		return nil
+	}
+	for _, g := range guardsOf(in.Block()) {
+		g = g.norm()
+		if a := argOf(g.Cond); a != nil {
+			if b, ok := constBool(a); ok && b != g.Pol {
+				return true
+			}
+			continue
+		}
+		bo, ok := g.Cond.(*ssa.BinOp)
+		if !ok || (bo.Op != token.EQL && bo.Op != token.NEQ) {
+			continue
+		}
+		a := argOf(stripIntConv(bo.X))
+		k, okk := constInt(bo.Y)
+		if a == nil || !okk {
+			continue
+		}
+		if ka, oka := constInt(stripIntConv(a)); oka {
+			if ((ka == k) == (bo.Op == token.EQL)) != g.Pol {
+				return true
+			}
+		}
+	}
+	return false
 }
 
 // factHolds: on every way to instruction in, a guard satisfying match holds — as a dominating guard, through the
